@@ -901,10 +901,11 @@ from . import speclang
 # condition is checked on the code the real compiler emits for a family of functions that put a struct / array value at
 # each kind of transfer point; pointer-typed operands (negative controls) must NOT be required to be copies.
 class VCase:
-    def __init__(self, name, gosrc, sinks=(), locals_=(), note='', check=None, ctor_args=None, methods=(), box=False, table=None):
+    def __init__(self, name, gosrc, sinks=(), locals_=(), note='', check=None, ctor_args=None, methods=(), box=False, table=None, methodval=False):
         self.name, self.gosrc, self.sinks, self.locals, self.note = name, gosrc, tuple(sinks), tuple(locals_), note
         self.box = box            # the function returns its value-typed operand boxed into an interface
         self.table = table        # (type, method): the case is the function assigned to <type>.prototype.<method> in the emitted package
+        self.methodval = methodval    # the function takes a method value of a value-receiver method of its struct operand
         self.ctor_args, self.methods = ctor_args, tuple(methods)   # (constructor name, value-typed argument indexes); value-receiver methods
         self.check = check        # (JavaScript expression over the compiled package P, value Go's semantics gives): the replay
 
@@ -918,6 +919,7 @@ func vsink(ss ...S) { ss[0].x = 99; if len(ss) > 1 { ss[1].x = 98 } }
 func psink(p *S) {}
 func wsink(w W) { w.s.x = 99 }
 func (s S) Mut() { s.x = 99 }
+func (s S) Inc() int { s.x++; return s.x }
 func (a A) AMut() { a[0] = 99 }
 '''
 
@@ -958,6 +960,10 @@ def c07_cases():
                    check=('(function(){ var a = new P.S.ptr(1, 2); var b = new P.S(a); b.Mut(); return a.x; })()', '1')))
     C.append(VCase('V_IfaceRecvArr', '', table=('A', 'AMut'), locals_=('a',),
                    check=('(function(){ var a = [1, 2, 3]; var b = new P.A(a); b.AMut(); return a[0]; })()', '1')))
+    # a method value of a value-receiver method: every call works on its own copy of the bound receiver (the receiver is bound
+    # by a run-time helper; a helper that binds the method to one object -- $methodVal -- shares that object between the calls)
+    C.append(VCase('V_MethodVal', 'func V_MethodVal(a S) int { f := a.Inc; return f()*10 + f() }', methodval=True,
+                   check=('P.V_MethodVal(new P.S.ptr(1, 2))', '22')))
     # negative control: pointers are passed as they are
     C.append(VCase('V_PtrPass', 'func V_PtrPass(p *S) int { psink(p); return p.x }', sinks=(), note='control'))
     return C
@@ -1033,6 +1039,11 @@ def c07_transfer_points(fn, case):
         if t == 'CallExpression' and n['callee'].get('type') == 'MemberExpression' and not n['callee'].get('computed') \
            and n['callee']['property'].get('name') in case.methods:
             out.append(('receiver of the value method %s' % n['callee']['property']['name'], n['callee']['object']))
+        if case.methodval and t == 'CallExpression' and n['callee'].get('type') == 'Identifier' and n['callee']['name'].startswith('$methodVal') and n['arguments']:
+            # the bound receiver is shared by all calls of a function made by $methodVal (method.bind(recv)); only a helper that
+            # copies per call makes each call independent: the helper's name is the operand inspected here
+            out.append(('receiver bound by %s' % n['callee']['name'], {'type': 'CallExpression', 'callee': {'type': 'Identifier', 'name': '$clone'}, 'loc': n.get('loc')}
+                        if n['callee']['name'] == '$methodValCopy' else n['arguments'][0] if False else {'type': 'Identifier', 'name': n['callee']['name'], 'loc': n.get('loc')}))
         if case.box and t == 'ReturnStatement' and n.get('argument') and n['argument'].get('type') == 'NewExpression' and n['argument']['arguments']:
             out.append(('value boxed into an interface', n['argument']['arguments'][0]))
         if t == 'AssignmentExpression' and n['operator'] == '=' and n['left'].get('type') == 'Identifier' and n['left']['name'] in case.locals:
@@ -1043,6 +1054,28 @@ def c07_transfer_points(fn, case):
             if k != 'loc' and isinstance(v, (dict, list)): walk(v)
     walk(fn.get('body'))
     return out
+
+def _methodvalcopy_copies():
+    dump = run_jsdump([os.path.join(props_repo(), 'compiler', 'prelude', 'prelude.js')])
+    fn = _find_prelude_fn(dump['prelude.js']['program'], '$methodValCopy')
+    if fn is None or not fn.get('params') or fn['params'][0].get('type') != 'Identifier':
+        return False
+    recv = fn['params'][0]['name']
+    ok = []
+    def walk(n, inner):
+        if isinstance(n, list):
+            for x in n: walk(x, inner)
+        elif isinstance(n, dict):
+            t = n.get('type')
+            if inner and t == 'CallExpression' and n['callee'].get('type') == 'MemberExpression' and n['callee'].get('computed'):
+                o = n['callee']['object']
+                if o.get('type') == 'CallExpression' and o['callee'].get('name') == '$clone' and o['arguments'] and o['arguments'][0].get('name') == recv:
+                    ok.append(True)
+            for k, v in n.items():
+                if k != 'loc' and isinstance(v, (dict, list)):
+                    walk(v, inner or (t in ('FunctionExpression', 'ArrowFunctionExpression') and n is not fn))
+    walk(fn['body'], False)
+    return bool(ok)
 
 def c07_replay(case, gosrc):
     """run the case through the real compiler and node: the value Go's semantics gives against what the emitted code gives"""
@@ -1097,6 +1130,11 @@ def run_c07(rep, spec, verbose=False, only=None):
         if fn is None:
             rep.undecided.append(('pattern ' + c.name, 'function not found in the emitted package')); continue
         pts = c07_transfer_points(fn, c)
+        if c.methodval and any(n.get('callee', {}).get('name') == '$clone' and what.endswith('$methodValCopy') for what, n in pts):
+            # the helper is trusted to copy per call only if its body says so: a function returned by it must call
+            # $clone(<its receiver parameter>, ...)[name](...)
+            if not _methodvalcopy_copies():
+                pts = [(what + ' (the helper does not copy per call)', {'type': 'Identifier', 'name': '$methodValCopy', 'loc': n.get('loc')}) for what, n in pts]
         if not pts and c.note != 'control':
             rep.undecided.append(('pattern ' + c.name, 'no transfer point recognised in the emitted code (the shape of the emitted code changed)')); continue
         rep.functions.append('emitted ' + c.name)
